@@ -448,3 +448,34 @@ func (x *Ctx) mustDerive(v ssa.Value, pred func(ssa.Value) bool) bool {
 	}
 	return walk(v, 0)
 }
+
+// returnedValues lists every value the function may return as result idx, one
+// per definition: with `defer` go/ssa spills results to a local and returns a
+// load of it, so each store to that local is a returned value of its own.
+func returnedValues(f *ssa.Function, idx int) []ssa.Value {
+	seen := map[ssa.Value]bool{}
+	var out []ssa.Value
+	add := func(v ssa.Value) {
+		if !seen[v] {
+			seen[v] = true
+			out = append(out, v)
+		}
+	}
+	eng.Instrs(f, func(in ssa.Instruction) {
+		ret, ok := in.(*ssa.Return)
+		if !ok || idx >= len(ret.Results) {
+			return
+		}
+		v := ret.Results[idx]
+		if u, ok := v.(*ssa.UnOp); ok && u.Op == token.MUL {
+			if a, ok := u.X.(*ssa.Alloc); ok {
+				for _, st := range eng.StoresTo(a, nil) {
+					add(st.Val)
+				}
+				return
+			}
+		}
+		add(v)
+	})
+	return out
+}
